@@ -1,10 +1,12 @@
 #!/bin/bash
 # Applies every behaviour-preserving rewrite under seeded/harmless/<k>/patch.diff to /repo in turn and runs EVERY
 # property's quick check: none may report a violation. Results: seeded/RESULTS-harmless.tsv
+# usage: [ONLY_K="10 11"] harmlesseval.sh
 cd /verif
 if [ -n "$(git -C /repo status --short)" ]; then echo "/repo working tree not clean"; exit 2; fi
 for d in seeded/harmless/*/; do
   k=$(basename $d)
+  if [ -n "$ONLY_K" ] && ! echo " $ONLY_K " | grep -q " $k "; then continue; fi
   if ! git -C /repo apply --check $PWD/$d/patch.diff 2>/dev/null; then echo -e "harmless\t$k\tPATCH-DOES-NOT-APPLY"; continue; fi
   git -C /repo apply $PWD/$d/patch.diff
   bad=""
